@@ -18,7 +18,8 @@ Init == /\ tid \in 1..Len(Traces)
 
 \* first failing clause, or "-" when the event satisfies the contract
 Judge(tr, e) ==
-  LET hasFocus == tr.kind = "focus"
+  LET hasFocus == tr.kind \in {"focus", "focus_nocb"}     \* focus_nocb: no focus-changed observer installed (fcb stays 0)
+      hasFcb == tr.kind = "focus"
       \* SimpleListWalker: a plain monitored list plus a position that is re-clamped after every call; what a ListBox sees
       \* of it (get_focus) is None exactly when the list is empty, else in range: the same position, else the last item
       isClamp == tr.kind = "clamp"
@@ -49,7 +50,7 @@ Judge(tr, e) ==
       ELSE IF r.err # "" /\ e.mod # 0 THEN "modified_never_on_failure"
       ELSE IF r.err = "" /\ r.items # items /\ e.mod # 1 THEN "modified_once_on_change"
       ELSE IF e.mod > 1 THEN "modified_at_most_once"
-      ELSE IF hasFocus /\ focus # NoFocus /\ e.focus # NoFocus /\ ((e.fcb >= 1) # (e.focus # focus)) THEN "focus_cb_iff_changed"
+      ELSE IF hasFcb /\ focus # NoFocus /\ e.focus # NoFocus /\ ((e.fcb >= 1) # (e.focus # focus)) THEN "focus_cb_iff_changed"
       ELSE "-"
 
 Step == /\ ok
